@@ -78,6 +78,11 @@ SPECS = [
     dict(name="m3-to-sp-rehash", kind="murmur3", hs=16, nd=3, np=2, nfiles=4, rehash="spooky2"),
     dict(name="sp-to-m3-rehash-h8", kind="spooky2", hs=8, nd=2, np=1, nfiles=4, rehash="murmur3"),
     dict(name="sp-h16-np2-wide34", kind="spooky2", hs=16, nd=34, np=2, nfiles=1),
+    # arrays the reference left with an unfinished sync (a file deleted, a file added, then "sync -B 1"): the content records
+    # deleted blocks with their hashes, changed blocks, and synced blocks side by side
+    dict(name="m3-h8-interrupted", kind="murmur3", hs=8, nd=2, np=1, nfiles=4, interrupted=True),
+    dict(name="sp-h16-interrupted", kind="spooky2", hs=16, nd=3, np=2, nfiles=4, interrupted=True),
+    dict(name="sp-h4-interrupted", kind="spooky2", hs=4, nd=2, np=2, nfiles=5, interrupted=True),
 ]
 
 
@@ -121,7 +126,9 @@ def verify_independently(a, spec, cs):
     hs = cs["hash_size"]
     n_hash = 0
     cols = {}           # pos -> {col: block bytes}
+    dirty = set()       # positions with blocks that are not synced (interrupted arrays): parity not comparable
     for idx, d in cs["disks"].items():
+        dirty.update(int(p) for p in d["deleted"])
         name = d["name"].decode()
         col = d["pos"]
         base = os.fsencode(os.path.join(a.root, name))
@@ -131,6 +138,9 @@ def verify_independently(a, spec, cs):
             assert len(data) == f["size"]
             for k, (pos, st, h) in enumerate(f["blocks"]):
                 blk = data[k * BS:(k + 1) * BS]
+                if spec.get("interrupted") and st != "BLK":
+                    dirty.add(pos)
+                    continue
                 assert st == "BLK", (f["sub"], st)
                 inf = cs["info"][pos]
                 hk = cs["prevhash"] if (inf and inf["rehash"]) else cs["hash"]
@@ -153,7 +163,7 @@ def verify_independently(a, spec, cs):
         for pos in range(cs["blockmax"]):
             want = gf.parity_block(l, cols.get(pos, {}), zmode=bool(spec.get("zmode")), size=BS)
             got = pdata[pos * BS:(pos + 1) * BS]
-            if pos in cols and got != want:
+            if pos in cols and pos not in dirty and got != want:
                 raise SystemExit("golden_gen: independent parity disagrees with the reference: level %d pos %d" % (l, pos))
             n_par += 1 if pos in cols else 0
     return n_hash, n_par
@@ -193,6 +203,15 @@ def make_array(ai, spec, binary, commit):
         steps.append("3 new files; sync (21 days later)")
     must(a.run("check", now=now + 30 * 86400), name + " check")
     r = must(a.run("diff", now=now + 30 * 86400), name + " diff")
+    if spec.get("interrupted"):
+        os.remove(os.path.join(a.ddir(0), "s1"))
+        p = os.path.join(a.ddir(spec["nd"] - 1), "late")
+        with open(p, "wb") as f:
+            f.write(fdata(ai, 9500, 2500))
+        t = (T0 + 950) * 10**9 + 777
+        os.utime(p, ns=(t, t))
+        must(a.run("sync", "-B", "1", *extra, now=now + 31 * 86400), name + " partial sync")
+        steps.append("delete d0/s1, add a file, sync -B 1 (31 days later): the other stripes are left unsynced")
 
     raw = open(a.cfile(0), "rb").read()
     for c in range(1, conf.copies):
@@ -239,6 +258,7 @@ def make_array(ai, spec, binary, commit):
                     "independent_encoder_reproduces_content_bytes": enc_ok},
         "blockmax": cs["blockmax"],
         "rehash_flagged_stripes": sum(1 for e in cs["info"] if e and e["rehash"]),
+        "interrupted": bool(spec.get("interrupted")),
     }
     os.makedirs(gl.ARRAYS, exist_ok=True)
     gl.pack(root, os.path.join(gl.ARRAYS, name + ".tar.gz"), tops)
@@ -274,8 +294,9 @@ def main():
     if os.path.exists(gl.GOLDEN) and os.listdir(gl.GOLDEN) and not force:
         raise SystemExit("golden set exists; it records the reference version and must not be regenerated "
                          "(use --force only when re-pinning the reference)")
-    if vlib.REPO != "/repo":
-        raise SystemExit("the golden set is produced from /repo only")
+    if vlib.REPO != "/repo" and not os.environ.get("GOLDEN_REFERENCE_WORKTREE"):
+        raise SystemExit("the golden set is produced from /repo only (or from a worktree of /repo at the pinned reference commit: "
+                         "GOLDEN_REFERENCE_WORKTREE=1 REPO=<worktree>)")
     commit = subprocess.run(["git", "-C", vlib.REPO, "rev-parse", "HEAD"], stdout=subprocess.PIPE,
                             text=True).stdout.strip()
     dirty = subprocess.run(["git", "-C", vlib.REPO, "status", "--porcelain", "--untracked-files=no"],
